@@ -90,6 +90,27 @@ type InjectedError struct {
 
 func (e *InjectedError) Error() string { return e.Msg }
 
+// InjectedJoin is an injected error that holds other errors the way errors.Join and a
+// fmt.Errorf with several %w do (fault kind "err_join" / "panic_join"): the error a block
+// returns is recorded as it is, whatever it wraps.
+type InjectedJoin struct {
+	*InjectedError
+	parts []error
+}
+
+func (e *InjectedJoin) Unwrap() []error { return e.parts }
+
+// InjectedOf returns the injected error behind v (itself, or the one an InjectedJoin carries).
+func InjectedOf(v any) (*InjectedError, bool) {
+	switch x := v.(type) {
+	case *InjectedError:
+		return x, true
+	case *InjectedJoin:
+		return x.InjectedError, true
+	}
+	return nil, false
+}
+
 // Ctx is the per-call recorder; it travels through the GlobalStore("ctx", ctx) option.
 type Ctx struct {
 	Plan   *Plan
@@ -144,6 +165,12 @@ func (c *Ctx) fire(f *Fault, n int) error {
 	case "err":
 		c.Injected = append(c.Injected, ie)
 		return ie
+	case "err_join":
+		c.Injected = append(c.Injected, ie)
+		return &InjectedJoin{InjectedError: ie, parts: []error{errors.New("part one"), errors.New("part two")}}
+	case "panic_join":
+		c.Injected = append(c.Injected, ie)
+		panic(&InjectedJoin{InjectedError: ie, parts: []error{errors.New("part one"), errors.New("part two")}})
 	case "panic_err":
 		c.Injected = append(c.Injected, ie)
 		panic(ie)
